@@ -13,6 +13,12 @@
         next_outbound_htlc_minimum/limit_msat, [e_cap] = outbound_capacity_msat);
       - [KHint]: BOLT 11 route hint hops; [KBlinded]: a blinded payment path taken as one edge from
         its introduction node to the (pseudo) payee, with its aggregate fees and limits.
+    A channel can be known under more than one identifier: a first hop by its real
+    [short_channel_id] and by its [outbound_scid_alias] (a route names it by the alias when there is
+    one), and an invoice hint may name the payer's own channel by either.  [e_id] is the identifier a
+    route uses, [e_alt] the other identifiers of the SAME channel: a hop naming any of them is a hop
+    over this edge (so its limits apply and its capacity is counted once), and excluding any of them
+    excludes the channel.
     Node ids, short channel ids and blinded hint indices are integers.  Style: stdlib + lia. *)
 Require Import LdkV.Prim.U64 LdkV.Prim.Rs2vLib LdkV.Gen.RouterFees.
 Open Scope Z_scope.
@@ -29,7 +35,10 @@ Record edge := mkEdge {
   e_hmax : Z;
   e_cap : option Z;  (* msat, shared by all HTLCs over this edge *)
   e_fees : RoutingFees;
-  e_cltv : Z
+  e_cltv : Z;
+  e_alt : list Z;       (* other identifiers of the same channel *)
+  e_chan_ok : bool;     (* the channel's announced features require no bit the router does not know *)
+  e_node_ok : bool      (* nor do the announced features of the node the edge leads to *)
 }.
 Definition graph := list edge.
 
@@ -55,8 +64,11 @@ Record params := mkParams {
 (** ** Resolving a path against the view *)
 Definition is_blinded (k : kind) : bool := match k with KBlinded => true | _ => false end.
 
+Definition mem_z (x : Z) (l : list Z) : bool := existsb (Z.eqb x) l.
+Definition edge_ids (e : edge) : list Z := e_id e :: e_alt e.
+
 Definition edge_matches (id src dst : Z) (blinded : bool) (e : edge) : bool :=
-  (e_id e =? id) && (e_src e =? src) && (e_dst e =? dst) && Bool.eqb (is_blinded (e_kind e)) blinded.
+  mem_z id (edge_ids e) && (e_src e =? src) && (e_dst e =? dst) && Bool.eqb (is_blinded (e_kind e)) blinded.
 
 Definition find_edge (g : graph) (id src dst : Z) (blinded : bool) : option edge :=
   List.find (edge_matches id src dst blinded) g.
@@ -138,8 +150,10 @@ Definition kind_ok (q : params) (pos : nat) (k : kind) : Prop :=
   | KBlinded => True
   end.
 
+(** a channel is excluded when ANY of its identifiers is on the list *)
 Definition not_excluded (q : params) (e : edge) : Prop :=
-  if is_blinded (e_kind e) then ~ In (e_id e) (q_excluded_blinded q) else ~ In (e_id e) (q_excluded q).
+  if is_blinded (e_kind e) then ~ In (e_id e) (q_excluded_blinded q)
+  else Forall (fun i => ~ In i (q_excluded q)) (edge_ids e).
 
 (** the forwarding node at the end of leg [l] is paid at least what the policy of the next
     channel requires for the amount forwarded over it *)
@@ -162,8 +176,14 @@ Definition raised (overpay : bool) (l : rleg) : Prop :=
 (** a leg is excused from the maximum / capacity clause when a later leg of its path was raised *)
 Definition exempt (overpay : bool) (later : list rleg) : Prop := Exists (raised overpay) later.
 
+(** usable: enabled (and announced in both directions), and neither the channel nor the node it
+    leads to requires a feature the router does not know *)
+Definition usable (e : edge) : Prop :=
+  e_usable e = true /\ e_chan_ok e = true /\ e_node_ok e = true.
+Definition usable_b (e : edge) : bool := e_usable e && e_chan_ok e && e_node_ok e.
+
 Definition leg_ok (q : params) (l : rleg) : Prop :=
-  e_usable (r_e l) = true /\ not_excluded q (r_e l) /\ kind_ok q (r_pos l) (e_kind (r_e l)) /\
+  usable (r_e l) /\ not_excluded q (r_e l) /\ kind_ok q (r_pos l) (e_kind (r_e l)) /\
   e_hmin (r_e l) <= r_amt l /\ fee_ok l.
 
 Definition same_edge (e1 e2 : edge) : bool :=
@@ -228,17 +248,16 @@ Definition kind_ok_b (q : params) (pos : nat) (k : kind) : bool :=
   | KHint => negb (Nat.eqb pos O)
   | KBlinded => true
   end.
-Definition mem_z (x : Z) (l : list Z) : bool := existsb (Z.eqb x) l.
 Definition not_excluded_b (q : params) (e : edge) : bool :=
   if is_blinded (e_kind e) then negb (mem_z (e_id e) (q_excluded_blinded q))
-  else negb (mem_z (e_id e) (q_excluded q)).
+  else forallb (fun i => negb (mem_z i (q_excluded q))) (edge_ids e).
 Definition fee_ok_b (l : rleg) : bool :=
   match r_next l with
   | Some (a, f) => match compute_fees a f with Some req => req <=? r_fee l | None => false end
   | None => true
   end.
 Definition leg_ok_b (q : params) (l : rleg) : bool :=
-  e_usable (r_e l) && not_excluded_b q (r_e l) && kind_ok_b q (r_pos l) (e_kind (r_e l))
+  usable_b (r_e l) && not_excluded_b q (r_e l) && kind_ok_b q (r_pos l) (e_kind (r_e l))
   && (e_hmin (r_e l) <=? r_amt l) && fee_ok_b l.
 Definition limit_ok_b (overpay : bool) (all : list (list rleg)) (lt : rleg * list rleg) : bool :=
   exempt_b overpay (snd lt) ||
@@ -296,7 +315,7 @@ Definition route_diagnose (g : graph) (q : params) (r : route) : Z :=
       if match r with nil => true | _ => false end then 2
       else if negb (Z.of_nat (List.length r) <=? q_max_paths q) then 3
       else if negb (forallb2 (path_shape_ok_b q) r all) then 4
-      else if negb (forallb (forallb (fun l => e_usable (r_e l))) all) then 5
+      else if negb (forallb (forallb (fun l => usable_b (r_e l))) all) then 5
       else if negb (forallb (forallb (fun l => not_excluded_b q (r_e l))) all) then 6
       else if negb (forallb (forallb (fun l => kind_ok_b q (r_pos l) (e_kind (r_e l)))) all) then 7
       else if negb (forallb (forallb (fun l => e_hmin (r_e l) <=? r_amt l)) all) then 8
